@@ -21,7 +21,9 @@ func Minimise(env *Env, f PropFunc, r *ReplayFile, budget time.Duration) (*Repla
 			rc.ReplayExec = []uint32{}
 		}
 		rc.execSeed = uint64(rc.CaseTape.Choose(1 << 30))
-		env.NewNetwork(Mix(MixStr(Mix(r.Seed, uint64(r.Run)), r.Property+"/"+r.Mode), 4242))
+		// every attempt lives in its own network (UUID space), like a fresh process:
+		// state that a keto under test keeps per id must not leak between attempts
+		env.NewNetwork(Mix(MixStr(Mix(r.Seed, uint64(r.Run)), r.Property+"/"+r.Mode), 4242, uint64(tries)))
 		f(env, rc)
 		for _, v := range rc.Rec.Violations {
 			if v.Class == r.Class && v.Site == r.Site {
